@@ -121,6 +121,12 @@ def cases(tier, seed):
     rng = rng_for(seed, "c14cases")
     for i in range(nd):
         out.append({"id": "dens-%d" % i, "kind": "dens", "spec": _rand_prior_spec(rng), "seed": [seed, "dens", i]})
+    # half-infinite and doubly infinite supports whose finite end (or guess) is exactly 0
+    inf = float("inf")
+    for i, sp in enumerate([{"t": "U", "lo": -inf, "hi": 0.0}, {"t": "U", "lo": 0.0, "hi": inf}, {"t": "U", "lo": -inf, "hi": inf},
+                            {"t": "U", "lo": -inf, "hi": 5.0, "guess": 0.0}, {"t": "U", "lo": -3.0, "hi": inf, "guess": 0.0},
+                            {"t": "U", "lo": -inf, "hi": -0.0}, {"t": "U", "lo": -2.0, "hi": 2.0}, {"t": "U", "lo": -inf, "hi": 1e-13}]):
+        out.append({"id": "dens-cat-%d" % i, "kind": "dens", "spec": sp, "seed": [seed, "denscat", i]})
     for i in range(nd // 3):
         re = _rand_prior_spec(rng) if rng.random() < 0.7 else float(rng.normal())
         im = _rand_prior_spec(rng) if rng.random() < 0.5 else float(abs(rng.normal()))
@@ -147,7 +153,7 @@ def _mk(spec):
     if spec["t"] == "Gi":
         return Gaussian(int(spec["mu"]), spec["sd"])
     if spec["t"] == "U":
-        return Uniform(spec["lo"], spec["hi"])
+        return Uniform(spec["lo"], spec["hi"], guess=spec["guess"]) if "guess" in spec else Uniform(spec["lo"], spec["hi"])
     if spec["t"] in ("G", "G+"):
         return Gaussian(spec["mu"], spec["sd"])
     return BoundedGaussian(spec["mu"], spec["sd"], spec["lo"], spec["hi"])
@@ -183,6 +189,8 @@ def _eval_points(spec, rng):
             pts += [b, float(np.nextafter(b, -np.inf)), float(np.nextafter(b, np.inf))]
             pts += [b - abs(b) * 1e-9 - 1e-300, b + abs(b) * 1e-9 + 1e-300]
     if spec["t"] == "U":
+        if not math.isfinite(lo) and not math.isfinite(hi):
+            lo, hi = -1e3, 1e3       # (probe window of the doubly infinite prior)
         a = lo if math.isfinite(lo) else hi - 1e3 * (abs(hi) + 1)
         b = hi if math.isfinite(hi) else lo + 1e3 * (abs(lo) + 1)
         pts += list(rng.uniform(a, b, 8)) + [(a + b) / 2, a - (b - a), b + (b - a), 0.0, 1e100, -1e100]
@@ -218,6 +226,9 @@ def _run_dens(case):
         else:
             worst_ex = max(worst_ex, abs(math.exp(lp) - pr) / pr / max(1.0, abs(lp)))
     flags["zero_outside_support"] = ok_out
+    if spec["t"] in ("U", "BG"):
+        nan = float("nan")
+        flags["nan_outside_support"] = bool(p.prob(nan) == 0 and p.lnprob(nan) == -np.inf and p.lnprob(np.float64("nan")) == -np.inf)
     flags["finite_inside_support"] = ok_in
     resid["lnprob_vs_textbook"] = fnum(worst_lp)
     resid["exp_lnprob_vs_prob"] = fnum(worst_ex)
@@ -505,6 +516,14 @@ def _run_laws(case):
         flags[nm + ".mul1.0"] = (p * 1.0) is p
         flags[nm + ".div1"] = (p / 1) is p
         flags[nm + ".mul_np1"] = (p * np.float64(1)) is p
+        # numpy scalars on the LEFT (numpy dispatches these to __array_ufunc__, not to __rmul__ / __radd__)
+        flags[nm + ".np1_mul"] = (np.float64(1) * p) is p
+        flags[nm + ".npint1_mul"] = (np.int64(1) * p) is p
+        flags[nm + ".np0_add"] = (np.float64(0) + p) is p
+        flags[nm + ".np0_mul_raises"] = _raises(TypeError, lambda: np.float64(0) * p)
+        flags[nm + ".npint0_mul_raises"] = _raises(TypeError, lambda: np.int64(0) * p)
+        if nm != "C":
+            flags[nm + ".np2_mul_guess"] = bool((np.float64(2) * p).guess == 2 * p.guess and (np.float32(2) * p).guess == 2 * p.guess)
         flags[nm + ".add_np0"] = (p + np.int64(0)) is p
         flags[nm + ".mul0_raises"] = _raises(TypeError, lambda: p * 0)
         flags[nm + ".rmul0_raises"] = _raises(TypeError, lambda: 0 * p)
@@ -552,6 +571,14 @@ def _run_bad(case):
     flags["bg_mu_below"] = _raises(E, lambda: BoundedGaussian(a - w, w, a, a + w))
     flags["bg_mu_above"] = _raises(E, lambda: BoundedGaussian(a + 2 * w, w, a, a + w))
     flags["bg_lo_eq_hi"] = _raises(E, lambda: BoundedGaussian(a, w, a, a))
+    nan, inf = float("nan"), float("inf")
+    flags["uniform_nan_lower"] = _raises(E, lambda: Uniform(nan, a))
+    flags["uniform_nan_upper"] = _raises(E, lambda: Uniform(a, nan))
+    flags["gaussian_sd_nan"] = _raises(E, lambda: Gaussian(a, nan))
+    flags["gaussian_sd_inf"] = _raises(E, lambda: Gaussian(a, inf))
+    flags["gaussian_mu_nan"] = _raises(E, lambda: Gaussian(nan, w))
+    flags["gaussian_mu_inf"] = _raises(E, lambda: Gaussian(inf, w))
+    flags["bg_sd_nan"] = _raises(E, lambda: BoundedGaussian(a, nan, a - 1, a + 1))
     # valid edge constructions are accepted
     ok = True
     try:
